@@ -427,6 +427,14 @@ UNITS['U32k'] = dict(
                  'R6: scratchpad bindings of BitUnpackOperator::execute lifted to parameters; the element loop is run on one element (the body does not depend on the position)'],
     not_covered=['ParameterizedVecVecIntegerOperator::execute zip loop', 'fuse_int_nulls / unfuse_int_nulls around nullable fields'])
 
+UNITS['U34n'] = dict(
+    kind='native', crate='kani/U34', bin='vx_u34', timeout_s=900,
+    pool='every LIKE pattern of length <= 4 (thorough: 5) over {a, b, ., %, _} without adjacent %, against every subject string of length <= 4 (thorough: 5) over the same alphabet',
+    title='BOUNDED exhaustive enumeration (native, not a proof): compile_expr LIKE -> regex translation (statement slice, compiled against the real regex crate) agrees with the SQL meaning of LIKE',
+    assumptions=['the regex crate is outside both verifiers; the slice is compiled natively and enumerated over a stated pool, so this unit is a bounded stand-in and is reported under coverage.bounded',
+                 'reference semantics like_matches(): % any sequence, _ one character, other characters themselves (patterns with adjacent % or backslashes are LocustDB-specific escapes and are left out)'],
+    not_covered=['patterns longer than the bound, other characters', 'the escape conventions (\\_ and %%)', 'the RegexMatch operator itself'])
+
 UNITS['U24k'] = dict(
     kind='kani', crate='kani/U24', timeout_s=600, mem_gb=12, jobs=2,
     title='BOUNDED (names <= 2 ASCII characters): storage.rs sanitize_table_name - cleaning steps after lower-casing (slice) and the verbatim-or-digest decision (expression slice)',
@@ -488,9 +496,9 @@ PROPS = {
                 level_note='the std sorts themselves are assumed (A-std-sort); the top-n driver and the planner choice between sort and top-n (and which sorts it requests as stable) are not covered',
                 technique='contract-based deductive verification (Verus + Kani) of extracted functions',
                 assumptions=[], not_covered=['bodies of slice::sort_by / sort_unstable_by', 'TopN::execute/finalize', 'NormalFormQuery::run sort requests']),
-    'C03': dict(level='proof', units=['U01', 'U05k', 'U06k', 'U07k', 'U08v', 'U19', 'U25k'],
+    'C03': dict(level='proof', units=['U01', 'U05k', 'U06k', 'U07k', 'U08v', 'U19', 'U25k', 'U34n'],
                 level_text='complete Kani proofs of comparison kernels and constant translation; Verus proof of null bitmap primitives and filter kernels; Kani proof that the planner rewrite makes a binary operator NULL exactly where an operand is NULL; bounded Kani check of string comparisons on dictionary indices',
-                level_note='compile_expr glue other than the NULL rewrite, LIKE/regex, and dictionaries larger than 3 entries are not covered',
+                level_note='compile_expr glue other than the NULL rewrite and dictionaries larger than 3 entries are not covered; LIKE is covered only by a bounded native enumeration of its pattern translation (patterns and subjects of <= 4 characters), not by a proof',
                 technique='contract-based deductive verification (Kani complete harnesses + Verus) of extracted / path-included real code',
                 assumptions=[], not_covered=[]),
     'C06': dict(level='proof', units=['U08k', 'U08v', 'U09k', 'U09v', 'U09m'],
